@@ -248,7 +248,7 @@ func c07MapOrder(r *core.Report) {
 				}
 			}
 			for i, rs := range list {
-				key := fmt.Sprintf("%s#map-range@%d(%s)", fn.Key, i, core.ExprStr(rs.X))
+				key := fmt.Sprintf("%s#map-range@%d(%s)", fn.Key, i, core.KeyStr(fn, rs.X))
 				r.Check(effs[rs] == "", rule, key, pos(r, rs), "body of the range over a map has no order-sensitive effect",
 					"the result depends on Go's unspecified map iteration order: "+effs[rs])
 			}
@@ -345,6 +345,14 @@ func readerOrderRule(r *core.Report, rule string, keys ...string) {
 func resultAppends(p *core.Prog, f *core.Func) (g *core.Graph, nodes []*core.GNode, tx types.Object) {
 	info := f.Pkg.TypesInfo
 	g = p.Graph(f)
+	returned := map[types.Object]bool{}
+	for _, rn := range g.Returns() {
+		if res := returnResults(rn); len(res) >= 1 {
+			if o := core.ObjOf(info, res[0]); o != nil {
+				returned[o] = true
+			}
+		}
+	}
 	for _, n := range stmtNodes(g) {
 		as, ok := n.Ast.(*ast.AssignStmt)
 		if !ok || len(as.Rhs) != 1 {
@@ -354,10 +362,9 @@ func resultAppends(p *core.Prog, f *core.Func) (g *core.Graph, nodes []*core.GNo
 		if !ok || core.BuiltinName(info, call) != "append" || len(call.Args) != 2 {
 			continue
 		}
-		if _, isIdx := core.Unparen(as.Lhs[0]).(*ast.IndexExpr); !isIdx {
-			if id, ok := core.Unparen(as.Lhs[0]).(*ast.Ident); !ok || !strings.Contains(strings.ToLower(id.Name), "transaction") {
-				continue
-			}
+		// the append target is (an element of) the collection the function returns as its result
+		if rid := rootIdent(as.Lhs[0]); rid == nil || !returned[info.Uses[rid]] {
+			continue
 		}
 		nodes = append(nodes, n)
 		tx = core.ObjOf(info, call.Args[1])
@@ -597,9 +604,12 @@ func c07WindowShape(r *core.Report) {
 	before, until, limit := f.ParamByName("before"), f.ParamByName("until"), f.ParamByName("limit")
 	var reached types.Object
 	ast.Inspect(f.Body, func(n ast.Node) bool {
-		if as, ok := n.(*ast.AssignStmt); ok && as.Tok == token.DEFINE && len(as.Lhs) == 1 {
-			if id, ok := as.Lhs[0].(*ast.Ident); ok && strings.HasPrefix(strings.ToLower(id.Name), "reached") {
-				reached = info.Defs[id]
+		// the "window is open" flag: a bool local that is set to true at some point (found by role, not by name)
+		if as, ok := n.(*ast.AssignStmt); ok && as.Tok == token.ASSIGN && len(as.Lhs) == 1 && len(as.Rhs) == 1 {
+			if v, isV := core.ObjOf(info, as.Lhs[0]).(*types.Var); isV && !v.IsField() && types.Identical(v.Type(), types.Typ[types.Bool]) {
+				if b, isB := boolConst(info, as.Rhs[0]); isB && b {
+					reached = v
+				}
 			}
 		}
 		return true
@@ -927,7 +937,7 @@ func c07OptionPointersDistinct(r *core.Report) {
 			fields[s.field] = true
 		}
 		n++
-		k := fmt.Sprintf("%s#address-of:%s@%s", f.Key, o.Name(), ss[0].field)
+		k := fmt.Sprintf("%s#address-of:%s@%s", f.Key, tokenOrName(f, o), ss[0].field)
 		if len(fields) > 1 {
 			var names []string
 			for fn := range fields {
